@@ -77,6 +77,8 @@ def load? (size : Int) (data : List Nat) : Option Bitmask :=
 /-- every element is a byte -/
 def WF (bin : List Nat) : Prop := ∀ x, x ∈ bin → x < 256
 
+instance (bin : List Nat) : Decidable (WF bin) := by unfold WF; infer_instance
+
 /-! ## bit view -/
 
 /-- bit `pos` of the bitmap: bit `pos % 8` of byte `pos / 8` -/
